@@ -22,6 +22,7 @@ EXPLANATION = (
     " (R6) nothing on the parse path iterates a std HashMap/HashSet (per-instance random order); (R7) a catch-all arm that panics on the result of a sub-parser is dead: the sub-parser can return no variant outside the arms' patterns (variant sets over the parser call graph)."
     ' (R8) no ParseError is built with SourceRange::default(); (R9) format_error counts shown and remaining errors on the same list.'
     ' (R10) panicking element reads of the parser are guarded: the grapheme under the cursor is read only after is_empty() was tested false on that path; a constant-index read X[k] only where guards imply X.len() > k; Option/Vec unwraps the function itself tests elsewhere only where the test holds. Reads with a computed index are listed, not decided.'
+    " (R11) column arithmetic of the report renderer agrees with the lexer: the length given to an empty line = the value for a missing line = the lexer's first column."
 )
 IMPURE = re.compile(r"^std::fs::|^std::env::|^std::net::|^std::process::|^std::time::|^rand::|^getrandom::|^std::thread::|^std::io::stdin|^std::os::|^tokio::|^reqwest::")
 
@@ -218,6 +219,7 @@ def run(F, rep, tier):
     run_r8(F, rep)
     run_r9(F, rep)
     run_r10(F, rep)
+    run_r11(F, rep)
 
 
 def run_r7(F, rep):
@@ -433,3 +435,52 @@ def run_r10(F, rep):
     rep.note("C09-R10-not-decided", "%d element reads / slices with a computed index (cursor arithmetic, line tables) are not decided by this rule" % n_other)
     rep.floor("C09-R10", "cursor reads examined", n_cur, 100)
     rep.note("C09-R10-constant-index-reads", n_const)
+
+
+def run_r11(F, rep):
+    """C09-R11: the report renderer's line length counts columns the way the lexer does"""
+    from lib.facts import find, walk, is_node, path_of, render
+    from lib.minieval import ev, NoEval
+    rep.rule("C09-R11", "column arithmetic of the error report agrees with the lexer's: the length the renderer assigns to an EMPTY line (its width accumulator at the initial value) equals "
+                        "what it returns for a line beyond the text and equals the column the lexer gives the first grapheme of a line (SourceLocation col of ParseString::new) - the "
+                        "renderer subtracts the current column from that length, so a length one short underflows (panics) on every report that touches an empty line")
+    items = F.syn("mech_syntax.lib")
+    tl = [it for it in items if it["k"] == "method" and it["name"] == "get_textlen_by_linenum" and it.get("body")]
+    if not rep.check(len(tl) == 1, "C09-R11", "anchor:get_textlen_by_linenum", "TextFormatter::get_textlen_by_linenum not found (%d)" % len(tl)):
+        return
+    body = tl[0]["body"]
+    early = [r_[1] for r_ in find(body, "ret") if r_[1] is not None]
+    accs = {}
+    for st in body:
+        if st[0] == "let" and st[1][0] == "pident" and st[1][3] and st[2] is not None:
+            try:
+                accs[st[1][1]] = ev(st[2], {})
+            except NoEval:
+                pass
+    tail = body[-1][1] if body and body[-1][0] == "expr" else None
+    ok_shape = len(early) == 1 and tail is not None and bool(accs)
+    if not rep.check(ok_shape, "C09-R11", "anchor:two-exits", "get_textlen_by_linenum no longer has the (missing line => constant, line => accumulated width) shape"):
+        return
+    try:
+        k_missing = ev(early[0], {})
+        k_empty = ev(tail, dict(accs))
+    except NoEval as e:
+        rep.bad("C09-R11", "undecided:get_textlen_by_linenum", "exit values not evaluable (%s)" % e, "get_textlen_by_linenum (mech_syntax.lib)")
+        return
+    init_col = None
+    for it in items:
+        if it["k"] == "method" and it["name"] == "new" and "ParseString" in (it.get("self") or "") and it.get("body"):
+            for s_ in find(it["body"], "struct"):
+                if s_[1].split("::")[-1] == "SourceLocation":
+                    for f in s_[2]:
+                        if f[0] == "col":
+                            try:
+                                init_col = ev(f[1], {})
+                            except NoEval:
+                                pass
+    ok = k_missing == k_empty and (init_col is None or k_empty == init_col)
+    rep.check(ok, "C09-R11", "textlen:empty-line=missing-line=first-column" if ok else "textlen:empty-line-%s:missing-line-%s:first-column-%s" % (k_empty, k_missing, init_col),
+              "get_textlen_by_linenum gives an empty line the length %s, a missing line %s, and the lexer's first column is %s: they must agree (the length is the column just past the "
+              "line's text); err_context computes `line_len - curr_col + 1` with curr_col starting at that first column" % (k_empty, k_missing, init_col),
+              "TextFormatter::get_textlen_by_linenum (mech_syntax.lib)", sample={"empty_line": k_empty, "missing_line": k_missing, "first_column": init_col})
+    rep.floor("C09-R11", "lexer start column found", 1 if init_col is not None else 0, 1)
